@@ -68,4 +68,4 @@ class BlockIdExt:
         return True
 
     def __hash__(self):
-        return self.root_hash
+        return int.from_bytes(self.root_hash, 'big')
